@@ -114,21 +114,23 @@ pub(crate) fn ac_step<F: Fn(usize) -> u32>(op: u8, p: Pos, n: usize, q: u32, key
 }
 
 // ------------------------------------------------------------------------------------------------ tables
-// One plain static array per column (a single big struct made CBMC's symbolic-offset reads both slow and,
-// in one observed case, inconsistent; simple arrays are neither).
-pub(crate) static mut NBLOCKS: usize = 0;
-pub(crate) static mut IS_INDEX: [bool; MAXB] = [false; MAXB];
-pub(crate) static mut FIRST: [usize; MAXB] = [0; MAXB];
-pub(crate) static mut COUNT: [usize; MAXB] = [0; MAXB];
+// One plain static array per column. IMPORTANT: every `static mut` below has a distinctive NON-ZERO initialiser.
+// Kani 0.68 shares the storage of a zero-initialised `static mut` with interned constants of the same bytes (observed:
+// `NENT += 1` changed the capacity of every `Vec::new()`), so mutable statics must not look like any constant.
+// Real initial values are written at run time by `reset_tables()`.
+pub(crate) static mut NBLOCKS: usize = 0x5EED_0001;
+pub(crate) static mut IS_INDEX: [u8; MAXB] = [0xA1; MAXB];
+pub(crate) static mut FIRST: [usize; MAXB] = [0x5EED_0002; MAXB];
+pub(crate) static mut COUNT: [usize; MAXB] = [0x5EED_0003; MAXB];
 /// index into the entry table of the last entry of the block's subtree
-pub(crate) static mut LASTENT: [usize; MAXB] = [0; MAXB];
-pub(crate) static mut NIDX: usize = 0;
-pub(crate) static mut IDX_CHILD: [usize; MAXI] = [0; MAXI];
-pub(crate) static mut NENT: usize = 0;
-pub(crate) static mut EKEY: [[u8; KL]; MAXE] = [[0; KL]; MAXE];
-pub(crate) static mut EKLEN: [usize; MAXE] = [0; MAXE];
-pub(crate) static mut EVAL: [[u8; 1]; MAXE] = [[0; 1]; MAXE];
-pub(crate) static mut OFFS_BE: [[u8; 8]; MAXB] = [[0; 8]; MAXB];
+pub(crate) static mut LASTENT: [usize; MAXB] = [0x5EED_0004; MAXB];
+pub(crate) static mut NIDX: usize = 0x5EED_0005;
+pub(crate) static mut IDX_CHILD: [usize; MAXI] = [0x5EED_0006; MAXI];
+pub(crate) static mut NENT: usize = 0x5EED_0007;
+pub(crate) static mut EKEY: [[u8; KL]; MAXE] = [[0xA2; KL]; MAXE];
+pub(crate) static mut EKLEN: [usize; MAXE] = [0x5EED_0008; MAXE];
+pub(crate) static mut EVAL: [[u8; 1]; MAXE] = [[0xA3; 1]; MAXE];
+pub(crate) static mut OFFS_BE: [[u8; 8]; MAXB] = [[0xA4; 8]; MAXB];
 
 /// I/O accounting and fault injection
 pub(crate) struct Io {
@@ -142,13 +144,13 @@ pub(crate) struct Io {
     pub protocol_ok: bool,
 }
 pub(crate) static mut IO: Io = Io {
-    loads: 0,
-    seeks: 0,
-    pending_seeks: 0,
-    io_calls: 0,
-    fail_at: 0,
-    fail_kind: 0,
-    faulted: false,
+    loads: 0xA5A5_0001,
+    seeks: 0xA5A5_0002,
+    pending_seeks: 0xA5A5_0003,
+    io_calls: 0xA5A5_0004,
+    fail_at: 0xA5A5_0005,
+    fail_kind: 0xA6,
+    faulted: true,
     protocol_ok: true,
 };
 
@@ -165,7 +167,7 @@ pub(crate) fn block_count(b: usize) -> usize {
     unsafe { COUNT[b] }
 }
 pub(crate) fn block_is_index(b: usize) -> bool {
-    unsafe { IS_INDEX[b] }
+    unsafe { IS_INDEX[b] == 1 }
 }
 pub(crate) fn block_child(b: usize, j: usize) -> usize {
     unsafe { IDX_CHILD[FIRST[b] + j] }
@@ -208,7 +210,7 @@ pub(crate) fn key_of(i: usize) -> &'static [u8] {
 fn new_block(is_index: bool, first: usize, count: usize, lastent: usize) -> usize {
     unsafe {
         let b = NBLOCKS;
-        IS_INDEX[b] = is_index;
+        IS_INDEX[b] = is_index as u8;
         FIRST[b] = first;
         COUNT[b] = count;
         LASTENT[b] = lastent;
@@ -253,6 +255,7 @@ pub(crate) fn reset_tables() {
     t.pending_seeks = 0;
     t.io_calls = 0;
     t.fail_at = 0;
+    t.fail_kind = 0;
     t.faulted = false;
     t.protocol_ok = true;
 }
@@ -260,7 +263,7 @@ pub(crate) fn reset_tables() {
 /// (key, value) of entry j of block b.
 pub(crate) fn ac_entry(b: usize, j: usize) -> (&'static [u8], &'static [u8]) {
     unsafe {
-        if IS_INDEX[b] {
+        if IS_INDEX[b] == 1 {
             let child = IDX_CHILD[FIRST[b] + j];
             (key_of(LASTENT[child]), &OFFS_BE[child][..])
         } else {
@@ -323,9 +326,7 @@ pub(crate) fn make_cursor(block: usize, pos: Pos) -> BlockCursor<Block> {
     BlockCursor { block: abstract_block(block), current_offset: pos }
 }
 pub(crate) fn abstract_block(id: usize) -> Block {
-    // Both vectors own a 1-element allocation: with `Vec::new()` (capacity 0, dangling pointer) Kani 0.68 returned
-    // garbage capacities for blocks that travel through `?` on a niche-encoded Result (observed; see DESIGN.md §9).
-    Block { compression_type: CompressionType::None, buffer: Vec::with_capacity(1), payload_size: id, index_offsets: Vec::with_capacity(1) }
+    Block { compression_type: CompressionType::None, buffer: Vec::new(), payload_size: id, index_offsets: Vec::new() }
 }
 
 // ------------------------------------------------------------------------------------------------ file
